@@ -614,4 +614,11 @@ def r7_class_tables_not_mutated(chk):
     common.no_mutation_of_class_tables_through_aliases(chk, 'C12.R7', sorted(r for r in chk.model.modules if r.startswith(('pysmi/lexer/', 'pysmi/parser/', 'pysmi/codegen/', 'pysmi/compiler.py'))), floor=4)
 
 
-RULES = [r1_parser_reset, r2_generator_reset, r4_symbol_table_read_only, r5_determinism, r6_status_objects_not_shared, r7_class_tables_not_mutated]
+
+def r_no_partial_key_memo(chk):
+    """an answer cached under part of the clause is wrong for the clause that differs in the rest"""
+    common.no_partial_key_memo(chk, 'C12.R8', 'pysmi/codegen/intermediate.py', 'IntermediateCodeGen')
+    common.no_partial_key_memo(chk, 'C12.R8', 'pysmi/codegen/symtable.py', 'SymtableCodeGen')
+
+
+RULES = [r1_parser_reset, r2_generator_reset, r4_symbol_table_read_only, r5_determinism, r6_status_objects_not_shared, r7_class_tables_not_mutated, r_no_partial_key_memo]
